@@ -1,3 +1,4 @@
 import AdeptModel.GradAlloc
 import AdeptModel.Tape
 import AdeptModel.StackProto
+import AdeptModel.RecBuf
